@@ -3,6 +3,7 @@ package core
 import (
 	"errors"
 	"fmt"
+	"sync/atomic"
 	"time"
 )
 
@@ -38,9 +39,10 @@ func (s *Sys) Quiesce(o QuiesceOpts) (View, error) {
 	marks := map[string]mark{}
 	spin := 0
 	for {
-		ok, v, why := s.quiescentOnce(o, func(job string) (bool, string) {
-			// two full loop passes after the stable observation
-			cnt, lastChange := s.IterCount(job)
+		ok, v, why := s.quiescentOnce(o, func(job string, cnt, lastChange int64) (bool, string) {
+			// two full loop passes after the stable observation. cnt / lastChange were read BEFORE the snapshot that is
+			// being judged (the polling goroutine may be descheduled for several loop iterations between the snapshot and
+			// this evaluation; counters read afterwards would vouch for a state the snapshot does not show)
 			last := s.lastRunnerSeq(job)
 			m, had := marks[job]
 			if !had || last > m.seq {
@@ -55,7 +57,21 @@ func (s *Sys) Quiesce(o QuiesceOpts) (View, error) {
 			return false, "loop passes pending"
 		})
 		if ok {
-			return v, nil
+			// confirm: a fixpoint is observed again by an independent evaluation, with the same view and without any
+			// event in between (iteration ticks only advance the sequence counter, they add no event)
+			n1 := s.Log.Len()
+			ok2, v2, _ := s.quiescentOnce(o, func(job string, cnt, lastChange int64) (bool, string) {
+				m, had := marks[job]
+				if !had || s.lastRunnerSeq(job) > m.seq {
+					return false, "changed"
+				}
+				return cnt >= m.count+2 && lastChange < cnt, "changed"
+			})
+			if ok2 && s.Log.Len() == n1 && sameView(v, v2) {
+				return v2, nil
+			}
+			confirmFailed.Add(1)
+			why = "observation not confirmed"
 		}
 		if time.Now().After(deadline) {
 			extra := ""
@@ -98,7 +114,30 @@ func (s *Sys) lastRunnerSeq(job string) int64 {
 	return 0
 }
 
-func (s *Sys) quiescentOnce(o QuiesceOpts, loopPassed func(job string) (bool, string)) (bool, View, string) {
+// ConfirmFailures counts quiescence observations that a second evaluation did not confirm (diagnostics)
+func ConfirmFailures() int64 { return confirmFailed.Load() }
+
+var confirmFailed atomic.Int64
+
+func sameView(a, b View) bool {
+	if len(a.Jobs) != len(b.Jobs) {
+		return false
+	}
+	for i := range a.Jobs {
+		x, y := &a.Jobs[i], &b.Jobs[i]
+		if x.ID != y.ID || x.Completed != y.Completed || x.Canceled != y.Canceled || (x.Start == nil) != (y.Start == nil) || len(x.Tasks) != len(y.Tasks) {
+			return false
+		}
+		for k := range x.Tasks {
+			if x.Tasks[k].Name != y.Tasks[k].Name || x.Tasks[k].Status != y.Tasks[k].Status {
+				return false
+			}
+		}
+	}
+	return true
+}
+
+func (s *Sys) quiescentOnce(o QuiesceOpts, loopPassed func(job string, cnt, lastChange int64) (bool, string)) (bool, View, string) {
 	// 1. cancel goroutines: every cancel-spawned has a cancel-exit
 	spawned := map[string]int{}
 	entered := map[string]int{}
@@ -132,7 +171,18 @@ func (s *Sys) quiescentOnce(o QuiesceOpts, loopPassed func(job string) (bool, st
 			return false, View{}, "cancel goroutine in flight for " + j
 		}
 	}
+	// loop counters first, then the snapshot they are used to judge
+	type ic struct{ cnt, lastChange int64 }
+	pre := map[string]ic{}
+	s.mu.Lock()
+	for j, it := range s.iters {
+		pre[j] = ic{it.count, it.lastChange}
+	}
+	s.mu.Unlock()
 	v := s.Snapshot(-1)
+	if s.testAfterSnapshot != nil {
+		s.testAfterSnapshot()
+	}
 	for i := range v.Jobs {
 		j := &v.Jobs[i]
 		if j.Start == nil || j.Completed || !s.WasStarted(j.ID) {
@@ -173,7 +223,7 @@ func (s *Sys) quiescentOnce(o QuiesceOpts, loopPassed func(job string) (bool, st
 			}
 			continue
 		}
-		if ok, why := loopPassed(j.ID); !ok {
+		if ok, why := loopPassed(j.ID, pre[j.ID].cnt, pre[j.ID].lastChange); !ok {
 			return false, v, why + " for " + j.ID
 		}
 	}
